@@ -47,11 +47,17 @@ ASSUMPTIONS = [
     "unix_time / boot_sig are the virtual clock's second at the time of the "
     "call",
 ]
-FLOORS = {"boot_checked": 500, "config_area_compared": 500,
+FLOORS = {"boot_arguments_by_position": 200, "boot_script": 40, "boot_checked": 500, "config_area_compared": 500,
           "after_options_boot": 150, "multi_block_image": 300,
           "returned_structs_checked": 500, "controller_boot": 40}
 SHARDS = {"quick": 16, "thorough": 64}
 CLASSES = ["presets", "overrides", "sizes", "history", "controller"]
+PRESET_VALUES = dict(
+    spin1_boot_options=dict(hw_ver=1, led0=0x00076104),
+    spin2_boot_options=dict(hw_ver=2, led0=0x00006103),
+    spin3_boot_options=dict(hw_ver=3, led0=0x00000502),
+    spin4_boot_options=dict(hw_ver=4, led0=0x00000001),
+    spin5_boot_options=dict(hw_ver=5, led0=0x00000001))
 PRESETS = ["spin1_boot_options", "spin2_boot_options", "spin3_boot_options",
            "spin4_boot_options", "spin5_boot_options"]
 
@@ -200,6 +206,8 @@ def judge_boot(ctx, dgs, image, options, vals_time, structs, where):
                                    area[diff[0]:diff[0] + 4].hex(),
                                    want[diff[0]:diff[0] + 4].hex()), **where)
     # returned struct definitions describe the same values
+    if structs is None:         # (the command-line front end returns none)
+        return
     ctx.hit("returned_structs_checked")
     sv = structs[b"sv"]
     for name, v in vals.items():
@@ -244,7 +252,10 @@ def run(case, ctx):
                 preset = getattr(bootm, b["preset"])
                 pcopy = dict(preset)
                 kwargs.update(preset)
-                options.update(preset)
+                # what each board type needs, written out here
+                check(pcopy == PRESET_VALUES[b["preset"]], "preset-values",
+                      "%s is %r" % (b["preset"], pcopy))
+                options.update(PRESET_VALUES[b["preset"]])
             dct = None if b["dct"] is None else dict(b["dct"])
             if dct is not None:
                 options.update(dct)
@@ -273,7 +284,36 @@ def run(case, ctx):
             where = dict(boot=bi, options=options, size=b["size"],
                          via=case["kind"])
             try:
-                if case["kind"] == "controller":
+                script = (case["kind"] == "controller" and dct is None and
+                          not b["kw"] and (bi + b["size"]) % 2 == 0)
+                if script:
+                    # the command-line front end: rig-boot HOST [--spinN]
+                    rb = importlib.import_module("rig.scripts.rig_boot")
+                    import io
+                    import contextlib
+                    with open(rb.boot.pkg_resources.resource_filename(
+                            "rig", "boot/scamp.boot"), "rb") as f_:
+                        image = f_.read()
+                    argv = ["board-%d" % bi] + (
+                        ["--" + b["preset"][:-len("_boot_options")]]
+                        if b["preset"] else [])
+                    where["argv"] = argv
+                    where["machine"] = mstate
+                    err = io.StringIO()
+                    with contextlib.redirect_stderr(err):
+                        rc = rb.main(argv)
+                    ctx.hit("boot_script")
+                    want_rc = {"down": 0, "down-unchecked": 0, "up": 1,
+                               "bmp": 2, "dead": 2}[mstate]
+                    check(rc == want_rc, "script-exit-status",
+                          "rig-boot %r returned %r for a machine that is %s" %
+                          (argv, rc, mstate), **where)
+                    if mstate in ("up", "bmp"):
+                        check(not datagrams, "boot-data-to-running-machine",
+                              "%d boot datagrams" % len(datagrams), **where)
+                        continue
+                    structs = None
+                elif case["kind"] == "controller":
                     mc = mcm.MachineController("board-%d" % bi, n_tries=2,
                                                timeout=0.05)
                     kw2 = dict(kwargs)
